@@ -1448,6 +1448,11 @@ class Executor(object):
                     if isinstance(idx, Raised):
                         out.append((s2, ("raise", idx.exc)))
                         continue
+                    if id(base) in self.borrowed:
+                        # `x[i] = v` / `x[mask] = v` writes into the array object itself: if it is one the caller still holds, the caller's
+                        # data change behind its back (ownership clause of the harness that marked the object)
+                        self.reg.ground("%s/%s/no-in-place-update-of-a-caller-owned-array@L%d" % (self.prop, ctx.tag, getattr(tgt, "lineno", 0)), "frame", ctx.tag, False,
+                                        backend="symbolic-exec (object identity)", detail="`%s = ...` writes into the array object %s" % (ast.unparse(tgt)[:60], self.borrowed[id(base)][0]))
                     try:
                         newbase = B.store(self, base, idx, v, s2, ctx, tgt)
                     except B.Havoc as h:
@@ -2202,6 +2207,11 @@ class Executor(object):
             ghost[n] = self.make_param(n, srt, st)
         self.last_inputs = dict(args)
         self.last_inputs.update(ghost)
+        for n in (getattr(c, "borrowed", None) or ()):
+            # arguments the caller still holds: whatever object a parameter (or one of its items) is, it may not be written into
+            if n in args:
+                for item in ([args[n]] + (list(args[n]) if isinstance(args[n], (tuple, list)) else [])):
+                    self.borrowed[id(item)] = ("argument `%s`" % n, item)
         for n, tag in (getattr(c, "dtypes", None) or {}).items():
             if n in args:
                 self.dtype_tags[id(args[n])] = (tag, args[n])
